@@ -11,6 +11,8 @@ import FxVerif.Proofs.C08Cache
 import FxVerif.Gen.C04
 import FxVerif.Gen.C08
 import FxVerif.Gen.C08b
+import FxVerif.Gen.C08c
+import FxVerif.Proofs.C08Wrap
 /-!
 # C08 — coin ↔ ERC-20 conversion conserves value and keeps the token-pair books balanced
 
@@ -810,6 +812,72 @@ theorem sum_preserved_unified (s s' : UState) (op : UOp) (h : stepU s op = .ok s
   · exact runFlow_WF univ hn fl _ _ hr (hin univ hE hW hu) a hwf
 
 end Exact
+
+/-! ### keeper-level token calls: the regenerated success predicate of the evm keeper's ERC-20 wrappers -/
+
+section Wrapper
+open FxVerif.Proofs.C08 FxVerif.Gen.C08c
+
+/-- **the wrappers as written treat a failing token call as a failure**: `ERC20Transfer` (translated statement by
+statement from `x/evm/keeper/erc20.go` into `Gen/C08c.lean erc20Transfer_accepts`) goes on only if the EVM call did not
+fail or revert AND the returned data decodes as a bool AND that bool is `true` — so a reverted call is a failure whatever
+it returned, a `false` return is a failure, an empty return is a failure (tokens that return nothing are not supported),
+a `true` return is a success; `ERC20Mint` / `ERC20Burn` go on iff the EVM call did not fail.  `stepUA` evaluates this very
+function. -/
+theorem erc20_wrappers_sound :
+    Accepts.Sound erc20Transfer_accepts ∧
+    erc20Transfer_accepts true true true false = false ∧ erc20Transfer_accepts true false false true = true ∧
+    (∀ a b c d, erc20Mint_accepts a b c d = a) ∧ (∀ a b c d, erc20Burn_accepts a b c d = a) ∧
+    erc20Transfer_translated = true ∧ erc20Mint_translated = true ∧ erc20Burn_translated = true := by
+  refine ⟨⟨fun e u v => by cases e <;> cases u <;> cases v <;> rfl, rfl⟩, rfl, rfl, fun _ _ _ _ => rfl, fun _ _ _ _ => rfl,
+    rfl, rfl, rfl⟩
+
+/-- the checks of `ERC20Transfer` in source order: VM error, then unpack error, then the bool — three separate `if`s -/
+theorem erc20_wrapper_checks_match_code :
+    erc20Transfer_checks = [("err != nil", "err"), ("err != nil", "ErrABIUnpack"), ("!unpackedRet.Value", "ErrLogic")] ∧
+    erc20Mint_checks = [] ∧ erc20Burn_checks = [] := by
+  decide
+
+/-- **with the wrapper as written, the message server with explicit token signals refines `stepU`**, for tokens of every
+style (success signalled by `true` or by nothing; failure by revert, `false` or nothing): whenever a message succeeds, it
+is a success of `stepU` with the same resulting state — so every theorem about `stepU` (exact deltas, I_external,
+I_module, I_index, I_sum) holds of the implementation's reading of the token -/
+theorem regenerated_wrapper_refines_stepU (styleOf : Nat → Style) (s s' : UState) (op : UOp)
+    (h : stepUA erc20Transfer_accepts styleOf s op = .ok s') : stepU s op = .ok s' :=
+  stepUA_ok_stepU _ erc20_wrappers_sound.1 styleOf (fun _ _ => erc20_wrappers_sound.2.1) s s' op h
+
+/-- **convert_exact for `MsgConvertERC20` through the regenerated wrapper** — depends on "a false or failing return is a
+failure" (`erc20_wrappers_sound`): a successful conversion of a token of any style took exactly `n` tokens from the sender
+and gave exactly `n` coins to the receiver, nothing else -/
+theorem convertERC20_exact_regenerated_wrapper (styleOf : Nat → Style) (s s' : UState) (ct u r n : Nat)
+    (h : stepUA erc20Transfer_accepts styleOf s (.convertERC20 ct u r n) = .ok s')
+    (hlive : ∀ p, pairByErc s.idx ct = some p → s.dead.contains p.contract = false) :
+    ∃ p, pairByErc s.idx ct = some p ∧ s'.idx = s.idx ∧ blocked (partyAddr r) = false ∧
+      ∀ (a : Asset) (x : Addr), x ≠ .erc20Mod → x ≠ .wfx →
+        (s'.L.bal a x : Int) = s.L.bal a x + (if a = coinAsset p.denom ∧ x = partyAddr r then (n : Int) else 0)
+          - (if a = .erc p.contract ∧ x = .user u then (n : Int) else 0) :=
+  convertERC20_exact_unified s s' ct u r n (regenerated_wrapper_refines_stepU styleOf s s' _ h) hlive
+
+/-- **I_external through the regenerated wrapper** -/
+theorem external_book_regenerated_wrapper (styleOf : Nat → Style) (s s' : UState) (hi : IdxInv s.idx) (id : PairId) (p : Pair)
+    (hp : lookup id s.idx.pairs = some p) (hext : p.external = true) (as : List Nat)
+    (hmd : lookup p.denom s.idx.md = some as) (hn : (p.denom :: as).Nodup) (op : UOp)
+    (h : stepUA erc20Transfer_accepts styleOf s op = .ok s') :
+    (bookE p.denom p.contract as).val s'.L = (bookE p.denom p.contract as).val s.L + extDelta s.idx p op :=
+  bookE_stepU s s' hi id p hp hext as hmd hn op (regenerated_wrapper_refines_stepU styleOf s s' _ h)
+
+/-- why the soundness matters: a wrapper that lets a `false` return pass (`err != nil && !ok` instead of `||`) turns
+`MsgConvertERC20` of a token that signals failure by returning `false` into a mint for nothing — the sender holds 0
+tokens, the message succeeds, 7 coins are minted and paid out, the escrow is still empty -/
+theorem false_return_accepted_mints_for_nothing :
+    let acc : Accepts := fun vmOk retEmpty unpackErr value => if !vmOk then false else if retEmpty then true else
+      if unpackErr && !value then false else true
+    let s : UState := { idx := addPair genesisIdx ⟨2, 11, true, true⟩, L := ⟨fun _ _ => 0, fun _ => 0, fun _ => none⟩ }
+    ∃ s', stepUA acc (fun _ => { ok := .retTrue, fail := .retFalse }) s (.convertERC20 11 1 1 7) = .ok s' ∧
+      s'.L.bal (coinAsset 2) (.user 1) = 7 ∧ s'.L.supply (coinAsset 2) = 7 ∧ s'.L.bal (.erc 11) .erc20Mod = 0 := by
+  refine ⟨_, rfl, ?_, ?_, ?_⟩ <;> decide
+
+end Wrapper
 
 /-! ### mixed transactions: the running StateDB's caches and keeper-level nested calls (Model/C08Cache.lean) -/
 
